@@ -109,7 +109,8 @@ Print Assumptions C13_gf_lib_shift_ok.
 (* ---------- the public application calls (Model/ApiDefs.v): statements Spec/ApiClockSpec.v, proofs Proofs/ApiClockProofs.v ----------
    node_shift / node_shift_run lifted to the extended operations xstep / xrun under the same hypotheses; every API call is shift
    invariant (none is excluded): admissibility asks only that a positive SendIsoAddressClaim delay keeps the armed timer inside the
-   bound of time_ok, and that SetMode is given a byte source on a device table of at most 256 entries *)
+   bound of time_ok, and that SetMode is given a byte source on a device table of at most 256 entries; ExtendTransmitMessages /
+   ExtendReceiveMessages / SetHandleOnlyKnownMessages / SetProductInformation do not involve time and are admissible with any arguments *)
 From N2kV Require Import Model.ApiDefs Spec.ApiClockSpec Proofs.ApiClockProofs.
 Theorem C13_api_node_shift : api_node_shift_stmt.  Proof. exact api_node_shift. Qed.
 Print Assumptions C13_api_node_shift.
@@ -119,21 +120,24 @@ Print Assumptions C13_api_node_shift_run.
 (* non-vacuity: a cold two-device node (64-bit build) at origin 5000, shift c = 2^32 - 5100; a script in which the application sets a PGN
    list and asks for the product information before Open() (the call opens the node), SendHeartbeat(iDev) completes Open() and the
    claims, then: product information, a delayed address claim (armed at now + 100, sent by the next ParseMessages), forced and unforced
-   heartbeats, heartbeat of one device, Tx / Rx PGN lists, configuration information, instances (arms the 2 ms claim), NAME fields,
-   SetMode to source 251 (second device wraps to 0), Restart, and heartbeats after 10 s.  The operations are admissible and the
-   shifted node produces the same events and ends in the shifted state (checked here by computation, independently of the theorem);
-   10 of the 17 API calls produce events *)
+   heartbeats, heartbeat of one device, new transmit / receive lists (ExtendTransmitMessages / ExtendReceiveMessages), Tx / Rx PGN lists
+   (which report them), configuration information, instances (arms the 2 ms claim), NAME fields, SetMode to source 251 (second device
+   wraps to 0), Restart, heartbeats after 10 s, SetHandleOnlyKnownMessages and SetProductInformation.  The operations are admissible and
+   the shifted node produces the same events and ends in the shifted state (checked here by computation, independently of the theorem);
+   10 of the 21 API calls produce events *)
 Definition c13_xops : list xop :=
   [XApi (ASetPgnList 0 [130000]);
    XApi (ASendProd 0);
    XBase RPoll; XBase (RBase (OTick 1)); XBase RPoll; XBase (RBase (OTick 201)); XApi (ASendHeartbeatDev 1); XBase (RBase (OTick 251)); XBase RPoll;
    XApi (ASendProd 0); XApi (ASendClaim 255 (-1) 100); XBase (RBase (OTick 101)); XBase RPoll;
    XApi (ASendHeartbeatAll true); XApi (ASendHeartbeatAll false); XApi (ASendHeartbeatDev 0);
+   XApi (ASetTxList 0 [130003; 130005]); XApi (ASetRxList 1 [130004]);
    XApi (ASendTxList 255 0 false); XApi (ASendRxList 255 1 false); XApi (ASendConf 1);
    XApi (ASetInstances 0 1 2 3); XBase (RBase (OTick 3)); XBase RPoll;
    XApi (ASetDeviceInformation 1 12345 130 25 2046 4);
    XApi (ASetMode 2 251); XApi ARestart; XBase (RBase (OTick 251)); XBase RPoll;
-   XBase (RBase (OTick 10000)); XApi (ASendHeartbeatAll false); XApi (ASendHeartbeatAll true)].
+   XBase (RBase (OTick 10000)); XApi (ASendHeartbeatAll false); XApi (ASendHeartbeatAll true);
+   XApi (ASetOnlyKnown true); XApi (ASetProductInformation [49] 666 [65] [66] [67] 2 65535 255)].
 Example C13_api_nonvacuous_node :
   let c := 4294962196 in
   let r0 := cold_node true 1 5000 40 5 no_lists [mk_dev true 22 1 []; mk_dev true 23 2 [130001]] [[]; [130002]] c13_cfg in
@@ -141,10 +145,12 @@ Example C13_api_nonvacuous_node :
   xrun gf_none (shift_rnode c r0) c13_xops = (shift_rnode c (fst (xrun gf_none r0 c13_xops)), snd (xrun gf_none r0 c13_xops)) /\
   (* number of events per operation *)
   map (fun l => length l) (snd (xrun gf_none r0 c13_xops)) =
-    [0; 0; 0; 0; 0; 0; 3; 0; 2; 2; 0; 0; 1; 2; 0; 1; 5; 4; 1; 0; 0; 1; 0; 0; 2; 0; 0; 0; 2; 2]%nat /\
-  map (fun d => d_src d) (n_devs (rn (fst (xrun gf_none r0 c13_xops)))) = [251; 0].
+    [0; 0; 0; 0; 0; 0; 3; 0; 2; 2; 0; 0; 1; 2; 0; 1; 0; 0; 6; 4; 1; 0; 0; 1; 0; 0; 2; 0; 0; 0; 2; 2; 0; 0]%nat /\
+  map (fun d => d_src d) (n_devs (rn (fst (xrun gf_none r0 c13_xops)))) = [251; 0] /\
+  d_tx (get_dev (rn (fst (xrun gf_none r0 c13_xops))) 0) = [130003; 130005] /\ x_rx (get_devx (fst (xrun gf_none r0 c13_xops)) 1) = [130004] /\
+  c_only_known (r_cfg (fst (xrun gf_none r0 c13_xops))) = true /\ length (c_prodinfo (r_cfg (fst (xrun gf_none r0 c13_xops)))) = 134%nat.
 Proof.
-  cbv zeta. split; [|split; [|split; [|split]]].
+  cbv zeta. split; [|split; [|split; [|split; [|split]]]].
   - constructor.
     + reflexivity.
     + vm_compute. split; reflexivity.
@@ -159,5 +165,6 @@ Proof.
   - vm_compute. reflexivity.
   - vm_compute. reflexivity.
   - vm_compute. reflexivity.
+  - vm_compute. repeat split; reflexivity.
 Qed.
 Print Assumptions C13_api_nonvacuous_node.
